@@ -415,8 +415,56 @@ struct StressThen {
   }
 };
 
+// Observer for the stress rounds (not in TSan builds: it uses fences). While a round is published it
+// samples "task set has no outstanding task" (the condition on which wait() returns) and then the
+// result future's readiness. The outstanding count is raised before the result future is registered
+// and the round is published after the registering call returned, so a zero count means the result's
+// run() has passed its decrement; the fence keeps the two loads in order.
+struct Observer {
+  std::atomic<int> active{0}, busy{0};
+  std::atomic<bool> quit{false};
+  std::atomic<long> probes{0}, zeroSeen{0}, bad{0};
+  const dispenso::TaskSetBase* ts = nullptr;
+  const dispenso::Future<long>* res = nullptr;
+  const dispenso::Future<size_t>* resAny = nullptr;
+  void loop() {
+    while (!quit.load(std::memory_order_seq_cst)) {
+      int a = active.load(std::memory_order_seq_cst);
+      if (a == 0) {
+        sched_yield();
+        continue;
+      }
+      busy.store(1, std::memory_order_seq_cst);
+      if (active.load(std::memory_order_seq_cst) == a) {
+        for (int i = 0; i < 64 && active.load(std::memory_order_relaxed) == a; ++i) {
+          long out = static_cast<long>(ts->verifOutstanding());
+          std::atomic_thread_fence(std::memory_order_seq_cst);
+          bool rdy = res ? res->is_ready() : resAny->is_ready();
+          probes.fetch_add(1, std::memory_order_relaxed);
+          if (out == 0) {
+            zeroSeen.fetch_add(1, std::memory_order_relaxed);
+            if (!rdy) bad.fetch_add(1, std::memory_order_relaxed);
+          }
+        }
+      }
+      busy.store(0, std::memory_order_seq_cst);
+    }
+  }
+  void publish(const dispenso::TaskSetBase* t, const dispenso::Future<long>* r, const dispenso::Future<size_t>* ra, int round) {
+    ts = t;
+    res = r;
+    resAny = ra;
+    active.store(round + 1, std::memory_order_seq_cst);
+  }
+  void retract() {
+    active.store(0, std::memory_order_seq_cst);
+    while (busy.load(std::memory_order_seq_cst)) {
+    }
+  }
+};
+
 template <typename TS>
-long stressRounds(dispenso::ThreadPool& pool, int kind, long rounds, long& notReady, vrt::Rng& r) {
+long stressRounds(dispenso::ThreadPool& pool, int kind, long rounds, long& notReady, vrt::Rng& r, Observer* obs) {
   std::atomic<long> sink{0};
   long evals = 0;
   for (long k = 0; k < rounds; ++k) {
@@ -436,8 +484,10 @@ long stressRounds(dispenso::ThreadPool& pool, int kind, long rounds, long& notRe
       for (int i = 0; i < n; ++i) in.emplace_back(StressFn{&sink}, pool, asyncPol(async));
       resAny = dispenso::when_any(ts, in.begin(), in.end());
     }
+    if (obs) obs->publish(&ts, which == 2 ? nullptr : &res, which == 2 ? &resAny : nullptr, static_cast<int>(k));
     ts.wait();
     bool ready = which == 2 ? resAny.is_ready() : res.is_ready();
+    if (obs) obs->retract();
     if (!ready) ++notReady;
     ++evals;
     if ((k & 63) == 0) vrt::progress();
@@ -477,13 +527,26 @@ void runC19Stress(long base, long n) {
     vrt::caseBegin(idx, key, spec);
     vrt::watchdogArm();
     clearPerturb();
-    long notReady = 0, evals = 0;
+    long notReady = 0, evals = 0, obsBad = 0, obsZero = 0;
     {
       dispenso::ThreadPool pool(static_cast<size_t>(threads));
-      evals = concurrent ? stressRounds<dispenso::ConcurrentTaskSet>(pool, kind, rounds, notReady, r) : stressRounds<dispenso::TaskSet>(pool, kind, rounds, notReady, r);
+      std::unique_ptr<Observer> obs;
+      std::thread obsThread;
+#if !VRT_TSAN
+      obs.reset(new Observer);
+      obsThread = std::thread([&obs]() { obs->loop(); });
+#endif
+      evals = concurrent ? stressRounds<dispenso::ConcurrentTaskSet>(pool, kind, rounds, notReady, r, obs.get()) : stressRounds<dispenso::TaskSet>(pool, kind, rounds, notReady, r, obs.get());
+      if (obs) {
+        obs->quit.store(true, std::memory_order_seq_cst);
+        obsThread.join();
+        obsBad = obs->bad.load();
+        obsZero = obs->zeroSeen.load();
+      }
     }
     vrt::watchdogDisarm();
+    if (obsBad) vrt::violation("the task set's outstanding count reached zero (the condition on which wait() returns) while the result future registered with it was not ready (" + std::to_string(obsBad) + " observations)", spec, "taskset-wait");
     if (notReady) vrt::violation("taskSet.wait() returned but the result future is not ready (" + std::to_string(notReady) + " of " + std::to_string(evals) + " rounds)", spec, "taskset-wait");
-    vrt::caseEnd(J().kv("_evals", evals).kv("_nt", evals).kv("notReady", notReady), key + "/" + std::to_string(k), {"stress:taskset-wait"});
+    vrt::caseEnd(J().kv("_evals", evals).kv("_nt", evals).kv("notReady", notReady).kv("observerZeroSeen", obsZero), key + "/" + std::to_string(k), {"stress:taskset-wait"});
   }
 }
